@@ -10,7 +10,6 @@ import (
 	"time"
 
 	"net/http"
-	"net/netip"
 
 	"github.com/pkg/errors"
 	"github.com/ysugimoto/falco/v2/interpreter/context"
@@ -126,7 +125,7 @@ func (v *LogScopeVariables) Get(s context.Scope, name string) (value.Value, erro
 		return v.ctx.ObjectTTL, nil
 
 	case REQ_IS_IPV6:
-		parsed, err := netip.ParseAddr(v.ctx.Request.RemoteAddr)
+		parsed, err := parseRemoteAddr(v.ctx.Request.RemoteAddr)
 		if err != nil {
 			return value.Null, errors.WithStack(fmt.Errorf(
 				"could not parse remote address",
